@@ -16,8 +16,8 @@ PID = "C03"
 RULE = ("per configuration (every output type x formats that together use every data source x chains incl. exclude_spawns_of x real "
         "sink states: directory absent, no permission as non-root, /dev/full (ENOSPC), unread datagram socket with a full queue): a "
         "traced dry run lists the I/O system calls issued between wrapper entry and the recording real-exec; then EVERY such call is "
-        "failed once with each plausible errno for that call (all single faults), EAGAIN (and EINTR on write/send/connect) are also "
-        "injected persistently (from that call on), and pairs of faults on different calls are sampled. Oracle: the real exec is reached exactly once with intact "
+        "failed once with each plausible errno for that call (all single faults), short transfers (write/send returning 1 or 10, read returning 0 or 1), EAGAIN (and "
+        "EINTR on write/send/connect) also persistently (from that call on), and pairs of faults on different calls are sampled. Oracle: the real exec is reached exactly once with intact "
         "arguments, its (-1, EACCES) comes back, exit status 0, no signal delivered inside the window, completion within 10 s (a run "
         "over the bound is repeated three times). non-trivial = the injected fault was hit inside the window (the syscall stream "
         "after it differs from the dry run or the call is the targeted one); distinct by (config, syscall, ordinal, errno, mode)")
@@ -39,6 +39,8 @@ ERRS = {
 # persistent faults (from that call on): EAGAIN wherever it is listed (a full queue stays full); EINTR only on the calls the
 # outputs issue directly -- libc itself retries read() on EINTR (getlogin_r's TEMP_FAILURE_RETRY), an endless EINTR is not a
 # plausible kernel behaviour there
+# short transfers: the call "succeeds" with fewer bytes than asked for (retval injection; the call itself is skipped)
+SHORT = {"write": [1, 10], "sendto": [1], "read": [0, 1], "writev": [1]}
 PERSISTENT = {"EAGAIN"}
 PERSISTENT_EINTR_CALLS = {"write", "sendto", "sendmsg", "connect"}
 ALL_DS = b"".join(b"%{" + n.encode() + (b":1" if n == "cgroup" else (b":HOME" if n == "env" else b"")) + b"}|" for n in gen.ALL_SOURCES)
@@ -53,7 +55,7 @@ def configs(out, quick, rng):
             ("file-absent-dir", b"file:" + o + b"/nodir/log", []), ("file-devfull", b"file:/dev/full", []),
             ("file-noperm", b"file:" + o + b"/noperm.log", ["noperm"]), ("socket-absent", b"socket:" + o + b"/nosock", []),
             ("socket-fullqueue", b"socket:" + o + b"/sock", ["sock", "fill"]), ("devlog-fullqueue", b"devlog", ["devlog", "fill"]),
-            ("devlog-absent", b"devlog", [])]
+            ("devlog-absent", b"devlog", []), ("file-relative", b"file:relative.log", [])]
     fmts = [("all-ds", ALL_DS), ("default", None), ("ident", b"%{login} %{tty_username} %{rpname} %{cgroup:memory} %{cwd} %{env_all}")]
     chains = [None, b"exclude_spawns_of:nosuch,zz;only_uid:0", b"only_tty;exclude_uid:7"]
     allc = []
@@ -123,7 +125,8 @@ def judge(rc, events, signals, what):
 def run_plan(os_, plan, dry_calls):
     args = []
     for name, ordinal, err, persistent in plan:
-        args += ["-e", "inject=%s:error=%s:when=%d%s" % (name, err, ordinal, "+" if persistent else "")]
+        spec = err if err.startswith("retval=") else "error=" + err
+        args += ["-e", "inject=%s:%s:when=%d%s" % (name, spec, ordinal, "+" if persistent else "")]
     what = " + ".join("%s#%d=%s%s" % (n, o, e, "+" if p else "") for n, o, e, p in plan)
     for attempt in range(3):
         t0 = time.time()
@@ -132,7 +135,7 @@ def run_plan(os_, plan, dry_calls):
             continue        # over the bound: repeat; only a consistent hang is a violation
         calls, signals = os_.parse_log()
         judge(rc, events, signals, what)
-        hit = any(("= -1 " + p[2]) in c["text"] and c["name"] == p[0] and c["ordinal"] == p[1] for c in calls for p in plan)
+        hit = any((("= -1 " + p[2]) in c["text"] or "(INJECTED)" in c["text"]) and c["name"] == p[0] and c["ordinal"] == p[1] for c in calls for p in plan)
         return hit
     return False
 
@@ -167,6 +170,8 @@ def worker(args):
                 plans.append([(c["name"], c["ordinal"], e, False)])
                 if e in PERSISTENT or (e == "EINTR" and c["name"] in PERSISTENT_EINTR_CALLS):
                     plans.append([(c["name"], c["ordinal"], e, True)])
+            for rv in SHORT.get(c["name"], []):
+                plans.append([(c["name"], c["ordinal"], "retval=%d" % rv, False)])
         npairs = 6 if ctx.quick else 40
         for _ in range(npairs):
             if len(window) < 2:
@@ -183,7 +188,7 @@ def worker(args):
             case = {"cfg": cfg, "plan": plan}
             try:
                 hit = run_plan(os_, plan, calls)
-                mode = "pair" if len(plan) > 1 else ("persistent" if plan[0][3] else "single")
+                mode = "pair" if len(plan) > 1 else ("persistent" if plan[0][3] else ("short-transfer" if plan[0][2].startswith("retval") else "single"))
                 local.count((cfg["name"],) + tuple(plan[0]) + (len(plan),) if hit else None,
                             ["config:" + cfg["oname"], "fault:" + mode, "syscall:" + plan[0][0], "errno:" + plan[0][2]] + (["hit"] if hit else ["not-reached"]),
                             sample={"config": cfg["name"], "fault": [list(p) for p in plan]})
